@@ -3,6 +3,7 @@ import Xo.Drv.Topo
 import Xo.Drv.CApi
 import Xo.Drv.Spec
 import Xo.Drv.BufPrim
+import Xo.Drv.Lay
 /-! `lake env lean --run Driver.lean <component>` : stdin ops → stdout results -/
 def main (args : List String) : IO UInt32 := do
   let i ← IO.getStdin
@@ -12,5 +13,6 @@ def main (args : List String) : IO UInt32 := do
   | ["capi"] => Drv.loop i o Drv.CApiD.step Drv.CApiD.init; return 0
   | ["spec"] => Drv.loop i o Drv.SpecD.step (); return 0
   | ["prim"] => Drv.loop i o Drv.PrimD.step (); return 0
+  | ["lay"] => Drv.loop i o Drv.LayD.step Drv.LayD.init; return 0
   | ["topo"] => Drv.loop i o Drv.TopoD.step (); return 0
   | _ => IO.eprintln "usage: Driver.lean <component>"; return 2
